@@ -276,7 +276,7 @@ def make_case(script, stop_at, mode, bo, unbind_answer):
         real = 'ok ' + ' '.join('%s@%d' % (k, ms(t)) for t, _, k in keep)
     else:
         # after the script is exhausted the SMSC refuses: extend the model script accordingly
-        line += ' ' + ' '.join(['cf:0'] * 12)
+        line += ' ' + ' '.join(['cf:0'] * min(6000, int(stop_at / (bo[0] / 1000.0)) + 20))
     if silent_unbind and fail is None and lat > I + GRACE + 0.001:
         fail = 'wind-down after stop() took %.3f s, more than enquire_link_interval + grace' % lat
     return Case(line, real, sig, fail, inp)
